@@ -31,7 +31,9 @@ def stack_items(arch):
         acc = "rax" if arch == "amd64" else "eax"
         wb_ = 8 if arch == "amd64" else 4
         return [("push acc", "50", ("push", acc, -wb_)), ("pop acc", "58", ("pop", acc)),
-                ("call +0", "e800000000", ("call", 5, 5)), ("ret", "c3", ("ret",))]
+                ("call +0", "e800000000", ("call", 5, 5)), ("ret", "c3", ("ret",)), ("ret 8", "c20800", ("ret_imm", 8)),
+                ("mov sp,ax", "6689c4", ("sp_low_write", 16, acc)), ("mov esp,eax", "89c4", ("sp_low_write", 32, acc)),
+                ("leave", "c9", ("leave", "rbp" if arch == "amd64" else "ebp"))]
     if arch in ("mips", "mipsel"):
         L = arch == "mipsel"
         return [("addiu $sp,$sp,-32", W32(0x27bdffe0, little=L), ("spadd", -32)),
@@ -84,6 +86,20 @@ def specfn_for(desc):
             if ra[0] != "stack":
                 raise NotImplementedError("descriptor says the return address is not on the stack")
             nxt = a64(il2smt.load_bytes(mem, a64(sp + ra[1]), wb, endian)); so.regs[spn] = sp + wb; so.accessed.append((a64(sp), wb, True))
+        elif k == "ret_imm":
+            if ra[0] != "stack":
+                raise NotImplementedError("descriptor says the return address is not on the stack")
+            nxt = a64(il2smt.load_bytes(mem, a64(sp + ra[1]), wb, endian)); so.regs[spn] = sp + wb + sem[1]; so.accessed.append((a64(sp), wb, True))
+        elif k == "sp_low_write":
+            src = ctx.input(sem[2], wbits); bits = sem[1]
+            low = z3.Extract(bits - 1, 0, src)
+            if bits == spw: so.regs[spn] = low
+            elif bits == 32: so.regs[spn] = z3.ZeroExt(spw - 32, low)                       # 32-bit writes clear the upper half in 64-bit mode
+            else: so.regs[spn] = z3.Concat(z3.Extract(spw - 1, bits, sp), low)             # 16-bit writes keep the rest
+        elif k == "leave":
+            bp = ctx.input(sem[1], wbits)
+            so.regs[spn] = bp + wb; so.regs[sem[1]] = il2smt.load_bytes(mem, a64(bp), wb, endian); so.accessed.append((a64(bp), wb, True))
+            if wbits == 32: so.assume.append(z3.ULE(bp, z3.BitVecVal(0xffff0000, wbits)))
         elif k == "spadd":
             so.regs[spn] = sp + z3.BitVecVal(sem[1] & ((1 << spw) - 1), spw)
         elif k == "push_sp":
@@ -176,6 +192,9 @@ def main():
             rep.sample({"bytes": it["bytes"], "label": it["label"], "verdict": "unsat: the IL moves the descriptor's stack pointer / stores words as the descriptor says, for every state"})
         elif st == "undecided":
             rep.count("undecided"); rep.undecided.append(it["label"])
+        elif st in ("rejected", "sorterr", "panic"):
+            rep.count("sat")
+            rep.violation(f"{fam}/stack instruction not lifted/{it['sem'][0]}", f"{it['label']} bytes={it['bytes']}: the translator does not lift this stack instruction ({st}: {r.get('detail', '')[:120]})", {"item": {k: v for k, v in it.items() if k != "desc"}})
         elif st == "nospec":
             ground(False, f"{fam}/return address location/{it['sem'][0]}", f"{it['label']}: {r.get('detail')}")
         else:
@@ -226,6 +245,13 @@ def main():
         ground(abi["trashed"] <= tr, f"{fam}/abi trashed set", f"{a}: caller-saved registers missing from trashed: {sorted(abi['trashed'] - tr)}")
         ground(not (pres & abi["trashed"]) and not (tr & abi["preserved"]), f"{fam}/abi preserved/trashed swapped", f"{a}: preserved∩caller-saved={sorted(pres & abi['trashed'])} trashed∩callee-saved={sorted(tr & abi['preserved'])}")
         ground(nm(sp) in pres and cc.get("sp_preserved") is True, f"{fam}/stack pointer not preserved", f"{a}: stack pointer {nm(sp)} preserved={nm(sp) in pres}, is_preserved(sp)={cc.get('sp_preserved')}")
+    # the ELF loader selects the descriptor named by the header (ground; the all-headers version is C19's Elf::new check)
+    from gen import elfgen
+    for a, (cls, big, mach) in {"x86": (32, False, 3), "amd64": (64, False, 62), "mips": (32, True, 8), "mipsel": (32, False, 8), "ppc": (32, True, 20), "aarch64": (64, False, 183), "aarch64eb": (64, True, 183)}.items():
+        r = drv.call({"cmd": "elf", "bytes": elfgen.build(cls, big, mach, entry=0x1000, phdrs=[], symbols=[], min_len=128).hex(), "base": 0})
+        fam = {"mipsel": "mips", "aarch64eb": "aarch64"}.get(a, a)
+        ground(r.get("ok") and r.get("arch") == a and r.get("endian", "").lower() == ENDIAN[a], f"{fam}/elf loader architecture selection",
+               f"ELF{cls} {'MSB' if big else 'LSB'} e_machine={mach}: loader chose {r.get('arch')}/{r.get('endian')} ({str(r.get('error', ''))[:80]}), header names {a}/{ENDIAN[a]}")
     # descriptors agree with one another
     for a, b in (("mips", "mipsel"), ("aarch64", "aarch64eb")):
         if a in descs and b in descs:
